@@ -19,6 +19,15 @@ package main
 // edge of a checked call whose callee bounds that parameter on every success return (ensureData).
 // What cannot be followed (integer elements of slices/maps, values written through pointers by
 // non-module code such as json/binary.Read) is not tainted; this is stated in the evidence.
+//
+// Where a sanitiser may be written (robust against extract-helper / inline / local-boolean refactorings):
+// inline as a branch; as a branch on a boolean phi ("ok := a && b; if !ok"), resolved per incoming value
+// by the path search e.reach; in a module predicate called in a branch condition, an error-returning helper
+// whose nil-error edge is tested, or a value-returning helper whose result was compared on the way to every
+// success return - all three through e.summary, which maps the helper's parameters to the call's arguments
+// and keeps the bound (constant, other parameter, helper-local value) so that rules that ask for a specific
+// bound (C13-R4 maxSize, C13-R5 MaxMessageSize / len(blob)) see it too. Pointer parameters that every call
+// site binds to the address of one local cell are followed to that cell.
 
 import (
 	"fmt"
@@ -39,13 +48,14 @@ const c13Small = 1 << 17
 type c13T struct {
 	hi, lo bool
 	ub     uint64
+	was    bool   // derives from a value that was hi or lo (survives sanitising: counts instances, decides nothing)
 	why    string // first source that made the value hi/lo (for messages)
 }
 
 func (t c13T) peer() bool { return t.hi || t.lo || t.ub > 0 }
 
 func c13Join(a, b c13T) c13T {
-	r := c13T{hi: a.hi || b.hi, lo: a.lo || b.lo, ub: a.ub, why: a.why}
+	r := c13T{hi: a.hi || b.hi, lo: a.lo || b.lo, ub: a.ub, was: a.was || b.was, why: a.why}
 	if b.ub > r.ub {
 		r.ub = b.ub
 	}
@@ -65,7 +75,10 @@ func (t c13T) norm() c13T {
 	if t.hi {
 		t.ub = 0
 	}
-	if !t.peer() {
+	if t.hi || t.lo {
+		t.was = true
+	}
+	if !t.peer() && !t.was {
 		t.why = ""
 	}
 	return t
@@ -89,28 +102,53 @@ func c13SatMul(a, b uint64) uint64 {
 }
 
 // c13Fact: on Edge, value V (registered under every value it bounds) is bounded above (ub) and/or
-// known non-negative (lb) by By.
+// known non-negative (lb) by By. When phi is set the fact holds on the edge only for paths on which
+// that boolean phi received its idx-th incoming value ("ok := a && b; if !ok {...}": the branch on ok
+// is a branch on b when ok came in from the block that evaluated b).
 type c13Fact struct {
 	edge   Edge
+	phi    *ssa.Phi
+	idx    int
 	ub, lb bool
-	by     ssa.Value // nil for call-success facts
-	strict bool      // relation was strict (V > By): lb also holds for By == -1
+	lenOf  bool            // the fact is about len(V) (V a slice or string), registered under V
+	by     ssa.Value       // nil for call-success facts
+	byAt   ssa.Instruction // where by's own taint is judged when by lives in a callee (nil: the If of edge)
+	also   []c13By         // further bounds, all of which must be acceptable (fact assembled from several branches of a helper)
+	strict bool            // relation was strict (V > By: lb also holds for By == -1; V < By)
+}
+
+// c13By: one bound of a fact with the instruction at which its own taint is judged.
+type c13By struct {
+	v  ssa.Value
+	at ssa.Instruction
+}
+
+func (f c13Fact) bys() []c13By {
+	if f.by == nil {
+		return f.also
+	}
+	return append([]c13By{{f.by, f.byAt}}, f.also...)
 }
 
 type c13Engine struct {
-	p      *Prog
-	sizes  types.Sizes
-	fns    []*ssa.Function
-	inLib  map[*ssa.Function]bool
-	val    map[ssa.Value]c13T
-	field  map[*types.Var]c13T
-	global map[*ssa.Global]c13T
-	result map[*ssa.Function][]c13T
-	facts  map[*ssa.Function]map[ssa.Value][]c13Fact
-	cellOf map[*ssa.FreeVar]ssa.Value
-	domMem map[c13DomKey]bool
-	ubSucc map[c13ParamKey]int // 0 unknown, 1 in progress, 2 yes, 3 no
-	invoke map[ssa.CallInstruction][]*ssa.Function
+	p         *Prog
+	sizes     types.Sizes
+	fns       []*ssa.Function
+	inLib     map[*ssa.Function]bool
+	val       map[ssa.Value]c13T
+	field     map[*types.Var]c13T
+	global    map[*ssa.Global]c13T
+	result    map[*ssa.Function][]c13T
+	facts     map[*ssa.Function]map[ssa.Value][]c13Fact
+	cellOf    map[*ssa.FreeVar]ssa.Value
+	cellOfPar map[*ssa.Parameter]ssa.Value
+	domMem    map[c13DomKey]bool
+	sums      map[c13SumKey][]c13SumFact
+	truncated int // summaries cut short by the nesting limit so far (results computed meanwhile are not cached)
+	sumOn     map[c13SumKey]bool
+	phis      map[*ssa.Function][]*ssa.Phi
+	ubSucc    map[c13ParamKey]int // 0 unknown, 1 in progress, 2 yes, 3 no
+	invoke    map[ssa.CallInstruction][]*ssa.Function
 
 	changed bool
 	rounds  int
@@ -122,8 +160,11 @@ type c13Engine struct {
 }
 
 type c13DomKey struct {
-	e Edge
-	b *ssa.BasicBlock
+	e   Edge
+	phi *ssa.Phi
+	idx int
+	b   *ssa.BasicBlock
+	pe  Edge // use on a phi edge (zero otherwise)
 }
 
 type c13ParamKey struct {
@@ -148,7 +189,8 @@ func c13Taint(p *Prog) *c13Engine {
 	}
 	e := &c13Engine{p: p, val: map[ssa.Value]c13T{}, field: map[*types.Var]c13T{}, global: map[*ssa.Global]c13T{},
 		result: map[*ssa.Function][]c13T{}, facts: map[*ssa.Function]map[ssa.Value][]c13Fact{},
-		cellOf: map[*ssa.FreeVar]ssa.Value{}, domMem: map[c13DomKey]bool{}, ubSucc: map[c13ParamKey]int{},
+		cellOf: map[*ssa.FreeVar]ssa.Value{}, cellOfPar: map[*ssa.Parameter]ssa.Value{}, domMem: map[c13DomKey]bool{}, ubSucc: map[c13ParamKey]int{},
+		sums: map[c13SumKey][]c13SumFact{}, sumOn: map[c13SumKey]bool{}, phis: map[*ssa.Function][]*ssa.Phi{},
 		inLib: map[*ssa.Function]bool{}, sourceSites: map[string]int{}, invoke: map[ssa.CallInstruction][]*ssa.Function{}}
 	e.sizes = types.SizesFor("gc", p.GOARCH)
 	if e.sizes == nil {
@@ -316,9 +358,12 @@ func (e *c13Engine) eval(v ssa.Value) c13T {
 	if c13IsInt(v.Type()) {
 		if w := e.width(v.Type()); w <= 16 {
 			// bounded by type width: peer data of at most w bits
-			r := c13T{ub: uint64(1)<<uint(w) - 1}
+			r := c13T{ub: uint64(1)<<uint(w) - 1, was: t.was}
 			if !c13Unsigned(v.Type()) && t.peer() {
 				r.lo = true
+				r.was = true
+			}
+			if r.was {
 				r.why = t.why
 			}
 			return r
@@ -331,7 +376,7 @@ func (e *c13Engine) set(v ssa.Value, t c13T) {
 	t = t.norm()
 	old := e.val[v]
 	n := c13Join(old, t).norm()
-	if n.hi != old.hi || n.lo != old.lo || n.ub != old.ub {
+	if n.hi != old.hi || n.lo != old.lo || n.ub != old.ub || n.was != old.was {
 		e.val[v] = n
 		e.changed = true
 	}
@@ -341,7 +386,7 @@ func (e *c13Engine) joinField(f *types.Var, t c13T) {
 	t = t.norm()
 	old := e.field[f]
 	n := c13Join(old, t).norm()
-	if n.hi != old.hi || n.lo != old.lo || n.ub != old.ub {
+	if n.hi != old.hi || n.lo != old.lo || n.ub != old.ub || n.was != old.was {
 		e.field[f] = n
 		e.changed = true
 	}
@@ -351,7 +396,7 @@ func (e *c13Engine) joinGlobal(g *ssa.Global, t c13T) {
 	t = t.norm()
 	old := e.global[g]
 	n := c13Join(old, t).norm()
-	if n.hi != old.hi || n.lo != old.lo || n.ub != old.ub {
+	if n.hi != old.hi || n.lo != old.lo || n.ub != old.ub || n.was != old.was {
 		e.global[g] = n
 		e.changed = true
 	}
@@ -369,7 +414,7 @@ func (e *c13Engine) joinResult(fn *ssa.Function, i int, t c13T) {
 	}
 	old := rs[i]
 	n := c13Join(old, t).norm()
-	if n.hi != old.hi || n.lo != old.lo || n.ub != old.ub {
+	if n.hi != old.hi || n.lo != old.lo || n.ub != old.ub || n.was != old.was {
 		rs[i] = n
 		e.changed = true
 	}
@@ -404,6 +449,43 @@ func (e *c13Engine) cell(addr ssa.Value) ssa.Value {
 		}
 		e.cellOf[a] = root
 		return root
+	case *ssa.Parameter:
+		// a pointer parameter that every static call site binds to the address of the same local
+		// cell ("func readField(blob []byte, off *int)" called with &off): that cell
+		if r, ok := e.cellOfPar[a]; ok {
+			return r
+		}
+		e.cellOfPar[a] = nil // in progress / unknown
+		fn := a.Parent()
+		pt, ok := a.Type().Underlying().(*types.Pointer)
+		if !ok || !c13Carries(pt.Elem()) || fn == nil || fn.Object() == nil {
+			return nil
+		}
+		idx := -1
+		for i, q := range fn.Params {
+			if q == a {
+				idx = i
+			}
+		}
+		var root ssa.Value
+		n := 0
+		for _, cs := range e.p.callSites(fn.Object()) {
+			args := cs.Call.Common().Args
+			if cs.Call.Common().IsInvoke() || idx < 0 || idx >= len(args) {
+				return nil
+			}
+			c := e.cell(args[idx])
+			if c == nil || (root != nil && c != root) {
+				return nil
+			}
+			root = c
+			n++
+		}
+		if n == 0 || root == nil {
+			return nil
+		}
+		e.cellOfPar[a] = root
+		return root
 	}
 	return nil
 }
@@ -417,70 +499,20 @@ func (e *c13Engine) factsOf(fn *ssa.Function) map[ssa.Value][]c13Fact {
 	}
 	m := map[ssa.Value][]c13Fact{}
 	e.facts[fn] = m
-	var reg func(v ssa.Value, f c13Fact, d int)
-	reg = func(v ssa.Value, f c13Fact, d int) {
-		if v == nil || d > 6 {
-			return
+	trunc0 := e.truncated
+	defer func() {
+		if e.truncated != trunc0 {
+			delete(e.facts, fn) // a helper summary was cut short (nesting limit): do not keep the incomplete map
 		}
-		if _, isC := v.(*ssa.Const); isC {
-			return
-		}
-		m[v] = append(m[v], f)
-		switch x := v.(type) {
-		case *ssa.ChangeType:
-			reg(x.X, f, d+1)
-		case *ssa.Convert:
-			if e.valuePreserving(x) {
-				reg(x.X, f, d+1)
-			}
-		case *ssa.BinOp:
-			// (a + b) <= bound bounds a and b above when the other addend is not negative (offset+length idiom)
-			if x.Op == token.ADD && f.ub {
-				g := f
-				g.lb = false
-				reg(x.X, g, d+1)
-				reg(x.Y, g, d+1)
-			}
-		case *ssa.UnOp:
-			// load of a local cell that is assigned exactly once: the fact holds for every load of it
-			if x.Op == token.MUL {
-				if c := e.cell(x.X); c != nil && e.singleStore(c) {
-					m[c] = append(m[c], f)
-				}
-			}
-		}
-	}
+	}()
+	reg := func(v ssa.Value, f c13Fact) { e.regFact(m, v, f, 0) }
 	for _, b := range fn.Blocks {
 		ifi := blockIf(b)
 		if ifi == nil || (len(b.Succs) == 2 && b.Succs[0] == b.Succs[1]) {
 			continue
 		}
-		a := condAtom(ifi.Cond)
-		if a.Op == token.ILLEGAL || !c13IsNum(a.X.Type()) {
-			continue
-		}
 		for succ := 0; succ < 2; succ++ {
-			holds := succ == 0 // the comparison is true on the true edge
-			if a.Neg {
-				holds = !holds
-			}
-			op := a.Op
-			if !holds {
-				op = c13NegOp(op)
-			}
-			ed := Edge{b, succ}
-			x, y := a.X, a.Y
-			switch op {
-			case token.LSS, token.LEQ: // x < y
-				reg(x, c13Fact{edge: ed, ub: true, by: y}, 0)
-				reg(y, c13Fact{edge: ed, lb: true, by: x, strict: op == token.LSS}, 0)
-			case token.GTR, token.GEQ: // x > y
-				reg(y, c13Fact{edge: ed, ub: true, by: x}, 0)
-				reg(x, c13Fact{edge: ed, lb: true, by: y, strict: op == token.GTR}, 0)
-			case token.EQL:
-				reg(x, c13Fact{edge: ed, ub: true, lb: true, by: y}, 0)
-				reg(y, c13Fact{edge: ed, ub: true, lb: true, by: x}, 0)
-			}
+			e.condFacts(ifi.Cond, succ == 0, c13Fact{edge: Edge{b, succ}}, reg, 0)
 		}
 	}
 	// nil-error edges of checked calls whose callee bounds the parameter on every success return
@@ -496,6 +528,13 @@ func (e *c13Engine) factsOf(fn *ssa.Function) map[ssa.Value][]c13Fact {
 		args := call.Call.Args
 		var succ []Edge
 		done := false
+		edges := func() []Edge {
+			if !done {
+				done = true
+				succ, _, _ = callErrEdges(fn, call)
+			}
+			return succ
+		}
 		for i, arg := range args {
 			if i >= len(g.Params) || !c13IsInt(arg.Type()) {
 				continue
@@ -506,16 +545,156 @@ func (e *c13Engine) factsOf(fn *ssa.Function) map[ssa.Value][]c13Fact {
 			if !e.ubOnSuccess(g, i, 0) {
 				continue
 			}
-			if !done {
-				done = true
-				succ, _, _ = callErrEdges(fn, call)
+			for _, ed := range edges() {
+				reg(arg, c13Fact{edge: ed, ub: true})
 			}
-			for _, ed := range succ {
-				reg(arg, c13Fact{edge: ed, ub: true}, 0)
+		}
+		// what the callee establishes about its parameters on every nil-error return (an extracted
+		// "func checkLen(n int) error" guard), with its parameters mapped to the arguments
+		if sfs := e.summary(g, c13OnNilErr); len(sfs) > 0 {
+			for _, ed := range edges() {
+				e.applySummary(call, sfs, c13Fact{edge: ed}, reg)
 			}
 		}
 	})
 	return m
+}
+
+// factsAbout: the facts of fn about parameter par, also when par lives in a cell because a closure
+// captures it (the comparisons then load the cell, which is written once).
+func (e *c13Engine) factsAbout(fn *ssa.Function, par *ssa.Parameter) []c13Fact {
+	m := e.factsOf(fn)
+	out := append([]c13Fact{}, m[par]...)
+	for _, r := range *par.Referrers() {
+		if st, ok := r.(*ssa.Store); ok && st.Val == ssa.Value(par) {
+			if c := e.cell(st.Addr); c != nil && e.singleStore(c) {
+				out = append(out, m[c]...)
+			}
+		}
+	}
+	return out
+}
+
+// regFact registers f under v and under the values whose bounds follow from a bound of v.
+func (e *c13Engine) regFact(m map[ssa.Value][]c13Fact, v ssa.Value, f c13Fact, d int) {
+	if v == nil || d > 6 {
+		return
+	}
+	if _, isC := v.(*ssa.Const); isC {
+		return
+	}
+	m[v] = append(m[v], f)
+	switch x := v.(type) {
+	case *ssa.ChangeType:
+		e.regFact(m, x.X, f, d+1)
+	case *ssa.Convert:
+		if e.valuePreserving(x) {
+			e.regFact(m, x.X, f, d+1)
+		}
+	case *ssa.BinOp:
+		// (a + b) <= bound bounds a and b above when the other addend is not negative (offset+length idiom)
+		if x.Op == token.ADD && f.ub {
+			g := f
+			g.lb = false
+			e.regFact(m, x.X, g, d+1)
+			e.regFact(m, x.Y, g, d+1)
+		}
+	case *ssa.UnOp:
+		// load of a local cell that is assigned exactly once: the fact holds for every load of it
+		if x.Op == token.MUL {
+			if c := e.cell(x.X); c != nil && e.singleStore(c) {
+				m[c] = append(m[c], f)
+			}
+		}
+	case *ssa.Call:
+		// a bound of len(s) is also recorded under s (minimum-length guards of buffers)
+		if b, ok := x.Call.Value.(*ssa.Builtin); ok && b.Name() == "len" && len(x.Call.Args) == 1 && !f.lenOf {
+			g := f
+			g.lenOf = true
+			m[x.Call.Args[0]] = append(m[x.Call.Args[0]], g)
+		}
+	}
+}
+
+// condFacts emits the facts that hold when boolean value v is pol, on top of base (the edge and,
+// possibly, the phi condition under which v decides the branch). v may be a comparison, a negation,
+// a boolean phi (local "ok := a && b": resolved per incoming value), or a call of a module predicate
+// (its summary with the parameters mapped to the arguments).
+func (e *c13Engine) condFacts(v ssa.Value, pol bool, base c13Fact, reg func(ssa.Value, c13Fact), depth int) {
+	if depth > 4 {
+		return
+	}
+	for {
+		u, ok := v.(*ssa.UnOp)
+		if !ok || u.Op != token.NOT {
+			break
+		}
+		v, pol = u.X, !pol
+	}
+	switch x := v.(type) {
+	case *ssa.BinOp:
+		if !c13IsNum(x.X.Type()) {
+			return
+		}
+		op := x.Op
+		if !pol {
+			op = c13NegOp(op)
+		}
+		mk := func(ub, lb bool, by ssa.Value, strict bool) c13Fact {
+			f := base
+			f.ub, f.lb, f.by, f.strict = ub, lb, by, strict
+			return f
+		}
+		switch op {
+		case token.LSS, token.LEQ: // x < y
+			reg(x.X, mk(true, false, x.Y, op == token.LSS))
+			reg(x.Y, mk(false, true, x.X, op == token.LSS))
+		case token.GTR, token.GEQ: // x > y
+			reg(x.Y, mk(true, false, x.X, op == token.GTR))
+			reg(x.X, mk(false, true, x.Y, op == token.GTR))
+		case token.EQL:
+			reg(x.X, mk(true, true, x.Y, false))
+			reg(x.Y, mk(true, true, x.X, false))
+		}
+	case *ssa.Phi:
+		if base.phi != nil || !c13IsBool(x.Type()) {
+			return
+		}
+		for i, ev := range x.Edges {
+			if _, isC := ev.(*ssa.Const); isC {
+				continue // a constant incoming value decides the branch by itself (pruned by the path search)
+			}
+			nb := base
+			nb.phi, nb.idx = x, i
+			e.condFacts(ev, pol, nb, reg, depth+1)
+		}
+	case *ssa.Call:
+		g := calleeFn(x)
+		if g == nil || g.Blocks == nil || !e.inLib[g] || !c13IsBool(x.Type()) {
+			return
+		}
+		mode := c13OnTrue
+		if !pol {
+			mode = c13OnFalse
+		}
+		e.applySummary(x, e.summary(g, mode), base, reg)
+	}
+}
+
+// c13HasLen: slices and strings (values whose len() a guard may test).
+func c13HasLen(t types.Type) bool {
+	switch u := t.Underlying().(type) {
+	case *types.Slice:
+		return true
+	case *types.Basic:
+		return u.Info()&types.IsString != 0
+	}
+	return false
+}
+
+func c13IsBool(t types.Type) bool {
+	b, ok := t.Underlying().(*types.Basic)
+	return ok && b.Info()&types.IsBoolean != 0
 }
 
 func c13NegOp(op token.Token) token.Token {
@@ -680,26 +859,44 @@ func (e *c13Engine) applyFacts(t c13T, fs []c13Fact, at ssa.Instruction, pe *Edg
 		if !t.peer() {
 			break
 		}
-		if !((f.ub && (t.hi || t.ub > 0)) || (f.lb && t.lo)) {
+		if f.lenOf || !((f.ub && (t.hi || t.ub > 0)) || (f.lb && t.lo)) {
 			continue
 		}
-		if !e.dominates(f.edge, at, pe) {
+		if !e.factDominates(f, at, pe) {
 			continue
 		}
 		ifInstr := f.edge.From.Instrs[len(f.edge.From.Instrs)-1]
+		bys := f.bys()
 		if f.ub && (t.hi || t.ub > 0) {
-			ok := f.by == nil
-			if !ok {
-				bt := e.eval(f.by)
-				ok = !bt.hi || !e.sanitise(bt, f.by, ifInstr, nil, depth+1).hi
+			ok := true
+			for _, by := range bys {
+				bt := e.eval(by.v)
+				if !bt.hi {
+					continue
+				}
+				where := by.at
+				if where == nil {
+					where = ifInstr
+				}
+				if e.sanitise(bt, by.v, where, nil, depth+1).hi {
+					ok = false
+				}
 			}
 			if ok {
 				t.hi = false
 				t.ub = 0 // bounded by a program quantity from here on
 			}
 		}
-		if f.lb && t.lo && e.lowOK(f.by, f.strict) {
-			t.lo = false
+		if f.lb && t.lo && len(bys) > 0 {
+			ok := true
+			for _, by := range bys {
+				if !e.lowOK(by.v, f.strict) {
+					ok = false
+				}
+			}
+			if ok {
+				t.lo = false
+			}
 		}
 	}
 	return t
@@ -725,7 +922,7 @@ func (e *c13Engine) boundedBy(v ssa.Value, at ssa.Instruction, pe *Edge, bound s
 	cur := v
 	for i := 0; i < 6 && cur != nil; i++ {
 		for _, f := range facts[cur] {
-			if f.ub && f.by != nil && same(f.by) && e.dominates(f.edge, at, pe) {
+			if f.ub && !f.lenOf && f.by != nil && len(f.also) == 0 && same(f.by) && e.factDominates(f, at, pe) {
 				return true
 			}
 		}
@@ -766,31 +963,743 @@ func (e *c13Engine) boundedBy(v ssa.Value, at ssa.Instruction, pe *Edge, bound s
 
 // dominates: every path from entry to the use passes edge ed.
 func (e *c13Engine) dominates(ed Edge, at ssa.Instruction, pe *Edge) bool {
+	return e.factDominates(c13Fact{edge: ed}, at, pe)
+}
+
+// factDominates: every path from entry to the use (the instruction at, or the control-flow edge pe)
+// passes f's edge (with f's phi receiving its idx-th incoming value, when f is conditional). Plain
+// dominance is tried first; when the function branches on boolean phis the question is decided by the
+// path search that resolves those branches per incoming value.
+func (e *c13Engine) factDominates(f c13Fact, at ssa.Instruction, pe *Edge) bool {
+	ed := f.edge
+	var b *ssa.BasicBlock
+	k := c13DomKey{e: ed, phi: f.phi, idx: f.idx}
 	if pe != nil {
-		if ed.From == pe.From && ed.Succ == pe.Succ {
+		if f.phi == nil && ed.From == pe.From && ed.Succ == pe.Succ {
 			return true
 		}
-		at = pe.From.Instrs[len(pe.From.Instrs)-1]
+		b = pe.From
+		k.pe = *pe
+	} else {
+		if at == nil {
+			return false
+		}
+		b = at.Block()
 	}
-	if at == nil {
-		return false
-	}
-	b := at.Block()
-	k := c13DomKey{ed, b}
+	k.b = b
 	if r, ok := e.domMem[k]; ok {
 		return r
 	}
-	s := ed.To()
-	var r bool
-	if len(s.Preds) == 1 {
-		r = s.Dominates(b)
-	} else if !s.Dominates(b) {
-		r = false
-	} else {
-		r = len(b.Instrs) > 0 && instrDominatedByEdge(b.Parent(), ed, b.Instrs[0])
+	r := false
+	if f.phi == nil {
+		s := ed.To()
+		if len(s.Preds) == 1 {
+			r = s.Dominates(b)
+		} else if s.Dominates(b) {
+			r = len(b.Instrs) > 0 && instrDominatedByEdge(b.Parent(), ed, b.Instrs[0])
+		}
+	}
+	if !r && len(e.boolPhis(b.Parent())) > 0 {
+		cuts := newC13Cuts()
+		if f.phi != nil {
+			cuts.cond[c13CondEdge{ed, f.phi, f.idx}] = true
+		} else {
+			cuts.edges[ed] = true
+		}
+		tg := c13Tgt{b: b}
+		if pe != nil {
+			tg = c13Tgt{edge: pe}
+		}
+		r = !e.reach(entryPoint(b.Parent()), tg, cuts)
 	}
 	e.domMem[k] = r
 	return r
+}
+
+// ---------------------------------------------------------------------------
+// path search that resolves branches on boolean phis per incoming value
+
+type c13CondEdge struct {
+	e   Edge
+	phi *ssa.Phi
+	idx int
+}
+
+// c13Cuts: edges, edges-under-a-phi-condition and instructions a path may not pass.
+type c13Cuts struct {
+	edges  map[Edge]bool
+	cond   map[c13CondEdge]bool
+	instrs map[ssa.Instruction]bool
+}
+
+func newC13Cuts() *c13Cuts {
+	return &c13Cuts{edges: map[Edge]bool{}, cond: map[c13CondEdge]bool{}, instrs: map[ssa.Instruction]bool{}}
+}
+
+func (c *c13Cuts) addFact(f c13Fact) {
+	if f.phi != nil {
+		c.cond[c13CondEdge{f.edge, f.phi, f.idx}] = true
+	} else {
+		c.edges[f.edge] = true
+	}
+}
+
+// c13Tgt: reach instruction idx of block b (entering b through pred, when set), or traverse edge.
+type c13Tgt struct {
+	b    *ssa.BasicBlock
+	idx  int
+	pred *ssa.BasicBlock
+	edge *Edge
+}
+
+func c13CondRoot(v ssa.Value) (ssa.Value, bool) {
+	neg := false
+	for {
+		u, ok := v.(*ssa.UnOp)
+		if !ok || u.Op != token.NOT {
+			return v, neg
+		}
+		v, neg = u.X, !neg
+	}
+}
+
+// boolPhis: the boolean phis of fn that decide a branch (possibly negated).
+func (e *c13Engine) boolPhis(fn *ssa.Function) []*ssa.Phi {
+	if r, ok := e.phis[fn]; ok {
+		return r
+	}
+	var out []*ssa.Phi
+	seen := map[*ssa.Phi]bool{}
+	for _, b := range fn.Blocks {
+		if ifi := blockIf(b); ifi != nil {
+			root, _ := c13CondRoot(ifi.Cond)
+			if phi, ok := root.(*ssa.Phi); ok && !seen[phi] {
+				seen[phi] = true
+				out = append(out, phi)
+			}
+		}
+	}
+	e.phis[fn] = out
+	return out
+}
+
+// reach: is there a path from start to the target that passes no cut? The search state carries, for
+// every branch-deciding boolean phi, the incoming edge it last received its value through: a branch on
+// such a phi takes only the successor a constant incoming value allows, and an edge cut under a phi
+// condition is closed exactly for the paths on which the phi got that incoming value.
+func (e *c13Engine) reach(start Point, tg c13Tgt, cuts *c13Cuts) bool {
+	fn := start.Block.Parent()
+	tracked := e.boolPhis(fn)
+	pos := map[*ssa.Phi]int{}
+	for i, p := range tracked {
+		pos[p] = i
+	}
+	blocked := func(b *ssa.BasicBlock, from, to int) bool {
+		if len(cuts.instrs) == 0 {
+			return false
+		}
+		for i := from; i < to && i < len(b.Instrs); i++ {
+			if cuts.instrs[b.Instrs[i]] {
+				return true
+			}
+		}
+		return false
+	}
+	type state struct {
+		b   *ssa.BasicBlock
+		env string
+	}
+	if tg.edge == nil && tg.pred == nil && start.Block == tg.b && start.Idx <= tg.idx && !blocked(tg.b, start.Idx, tg.idx) {
+		return true
+	}
+	if blocked(start.Block, start.Idx, len(start.Block.Instrs)) {
+		return false
+	}
+	seen := map[state]bool{}
+	first := state{start.Block, string(make([]byte, len(tracked)))}
+	seen[first] = true
+	queue := []state{first}
+	for len(queue) > 0 {
+		st := queue[0]
+		queue = queue[1:]
+		b := st.b
+		forced := -1
+		var cphi *ssa.Phi
+		cidx := -1
+		if ifi := blockIf(b); ifi != nil && len(b.Succs) == 2 {
+			root, neg := c13CondRoot(ifi.Cond)
+			if phi, ok := root.(*ssa.Phi); ok {
+				if i, ok := pos[phi]; ok && st.env[i] > 0 {
+					cphi, cidx = phi, int(st.env[i])-1
+					if bv, isC := constBool(phi.Edges[cidx]); isC {
+						if bv != neg {
+							forced = 0
+						} else {
+							forced = 1
+						}
+					}
+				}
+			}
+		}
+		for i, s := range b.Succs {
+			if forced >= 0 && i != forced {
+				continue
+			}
+			ed := Edge{b, i}
+			if cuts.edges[ed] {
+				continue
+			}
+			if cphi != nil && cuts.cond[c13CondEdge{ed, cphi, cidx}] {
+				continue
+			}
+			if tg.edge != nil {
+				if tg.edge.From == b && tg.edge.Succ == i {
+					return true
+				}
+			} else if s == tg.b && (tg.pred == nil || tg.pred == b) && !blocked(s, 0, tg.idx) {
+				return true
+			}
+			if blocked(s, 0, len(s.Instrs)) {
+				continue
+			}
+			env := st.env
+			if len(tracked) > 0 {
+				var nb []byte
+				for _, in := range s.Instrs {
+					phi, ok := in.(*ssa.Phi)
+					if !ok {
+						break
+					}
+					j, ok := pos[phi]
+					if !ok {
+						continue
+					}
+					if nb == nil {
+						nb = []byte(env)
+					}
+					nb[j] = 0
+					n := 0
+					for pi, p := range s.Preds {
+						if p == b {
+							n++
+							nb[j] = byte(pi + 1)
+						}
+					}
+					if n != 1 || len(s.Preds) > 250 {
+						nb[j] = 0 // both successors of b lead here: the incoming value is not determined
+					}
+				}
+				if nb != nil {
+					env = string(nb)
+				}
+			}
+			ns := state{s, env}
+			if !seen[ns] {
+				seen[ns] = true
+				queue = append(queue, ns)
+			}
+		}
+	}
+	return false
+}
+
+// ---------------------------------------------------------------------------
+// helper summaries: what a module function establishes about its integer parameters
+
+const (
+	c13OnNilErr = iota // on every (possibly) nil-error return
+	c13OnTrue          // whenever its single boolean result is true
+	c13OnFalse         // ... is false
+)
+
+type c13SumKey struct {
+	fn   *ssa.Function
+	mode int
+}
+
+// c13SumBy: a bound inside a summary: parameter param of the helper (mapped to the argument at the
+// call site), or a constant / value of the helper (or of its callees) judged at instruction at.
+type c13SumBy struct {
+	param int
+	v     ssa.Value
+	at    ssa.Instruction
+}
+
+// c13SumFact: parameter param (or, when param < 0, result number result) is bounded above / known
+// non-negative by every one of bys.
+type c13SumFact struct {
+	param  int
+	result int
+	lenOf  bool // the fact is about len(parameter)
+	ub, lb bool
+	strict bool
+	bys    []c13SumBy // empty: unconditional (a callee's own success fact)
+}
+
+// paramIndex: v is parameter i of g, possibly through value-preserving conversions.
+func (e *c13Engine) paramIndex(g *ssa.Function, v ssa.Value) int {
+	for d := 0; d < 4 && v != nil; d++ {
+		if p, ok := v.(*ssa.Parameter); ok {
+			for i, q := range g.Params {
+				if q == p {
+					return i
+				}
+			}
+			return -1
+		}
+		switch x := v.(type) {
+		case *ssa.ChangeType:
+			v = x.X
+		case *ssa.Convert:
+			if !e.valuePreserving(x) {
+				return -1
+			}
+			v = x.X
+		default:
+			return -1
+		}
+	}
+	return -1
+}
+
+type c13RetTgt struct {
+	ret  *ssa.Return
+	pred *ssa.BasicBlock
+	val  ssa.Value // boolean modes: the (non-constant) value returned through this target
+}
+
+// summary computes the facts g establishes in the given mode: for every integer parameter, the
+// comparisons (and callee summaries) inside g that every path to a qualifying return passes. A
+// boolean result that is itself a condition ("return 0 <= n && n <= max") counts as passing that
+// condition. Bounds that are other parameters are kept symbolic and mapped at the call site.
+func (e *c13Engine) summary(g *ssa.Function, mode int) []c13SumFact {
+	k := c13SumKey{g, mode}
+	if r, ok := e.sums[k]; ok {
+		return r
+	}
+	if g == nil || g.Blocks == nil {
+		return nil
+	}
+	if e.sumOn[k] {
+		return nil // recursion: the callee contributes nothing (fewer facts: conservative)
+	}
+	if len(e.sumOn) > 24 {
+		e.truncated++ // nesting limit (never reached on today's call graph): results computed meanwhile are not cached
+		return nil
+	}
+	e.sumOn[k] = true
+	defer delete(e.sumOn, k)
+	var out []c13SumFact
+	trunc0 := e.truncated
+	defer func() {
+		if e.truncated == trunc0 {
+			e.sums[k] = out
+		}
+	}()
+	res := g.Signature.Results()
+	var tgs []c13RetTgt
+	pol := mode == c13OnTrue
+	switch mode {
+	case c13OnNilErr:
+		hasErr := false
+		for i := 0; i < res.Len(); i++ {
+			if isErrorType(res.At(i).Type()) {
+				hasErr = true
+			}
+		}
+		if !hasErr {
+			return nil
+		}
+		for _, t := range c13SuccessTargets(e.p, g) {
+			tgs = append(tgs, c13RetTgt{ret: t.Ret, pred: t.Pred})
+		}
+	default:
+		if res.Len() != 1 || !c13IsBool(res.At(0).Type()) {
+			return nil
+		}
+		for _, b := range g.Blocks {
+			if len(b.Instrs) == 0 {
+				continue
+			}
+			ret, ok := b.Instrs[len(b.Instrs)-1].(*ssa.Return)
+			if !ok || len(ret.Results) != 1 {
+				continue
+			}
+			add := func(v ssa.Value, pred *ssa.BasicBlock) {
+				if bv, isC := constBool(v); isC {
+					if bv == pol {
+						tgs = append(tgs, c13RetTgt{ret: ret, pred: pred})
+					}
+					return
+				}
+				tgs = append(tgs, c13RetTgt{ret: ret, pred: pred, val: v})
+			}
+			v := ret.Results[0]
+			if phi, ok := v.(*ssa.Phi); ok && phi.Block() == b {
+				for i, ev := range phi.Edges {
+					add(ev, b.Preds[i])
+				}
+			} else {
+				add(v, nil)
+			}
+		}
+	}
+	if len(tgs) == 0 {
+		return nil
+	}
+	facts := e.factsOf(g)
+	// facts the returned condition itself establishes, per target
+	direct := make([]map[ssa.Value][]c13Fact, len(tgs))
+	for i, t := range tgs {
+		if t.val != nil {
+			m := map[ssa.Value][]c13Fact{}
+			e.condFacts(t.val, pol, c13Fact{}, func(v ssa.Value, f c13Fact) { e.regFact(m, v, f, 0) }, 0)
+			direct[i] = m
+		}
+	}
+	// calls whose error is handed straight to the caller: g succeeds only if the callee did
+	type retCall struct {
+		call *ssa.Call
+		sfs  []c13SumFact
+	}
+	var retCalls []retCall
+	if mode == c13OnNilErr {
+		allInstrs(g, func(_ *ssa.BasicBlock, _ int, in ssa.Instruction) {
+			call, ok := in.(*ssa.Call)
+			if !ok || !c13ErrOnlyReturned(call) {
+				return
+			}
+			if h := calleeFn(call); h != nil && h.Blocks != nil && e.inLib[h] {
+				if sfs := e.summary(h, c13OnNilErr); len(sfs) > 0 {
+					retCalls = append(retCalls, retCall{call, sfs})
+				}
+			}
+		})
+	}
+	sumBy := func(by c13By, f c13Fact) c13SumBy {
+		if i := e.paramIndex(g, by.v); i >= 0 {
+			return c13SumBy{param: i}
+		}
+		at := by.at
+		if at == nil && f.edge.From != nil {
+			at = f.edge.From.Instrs[len(f.edge.From.Instrs)-1]
+		}
+		return c13SumBy{param: -1, v: by.v, at: at}
+	}
+	byKey := func(bs []c13SumBy) string {
+		var parts []string
+		for _, b := range bs {
+			switch {
+			case b.param >= 0:
+				parts = append(parts, fmt.Sprintf("p%d", b.param))
+			case b.v == nil:
+				parts = append(parts, "nil")
+			default:
+				if c, ok := b.v.(*ssa.Const); ok && c.Value != nil {
+					parts = append(parts, "c"+c.Value.ExactString())
+				} else {
+					parts = append(parts, fmt.Sprintf("v%p", b.v))
+				}
+			}
+		}
+		sort.Strings(parts)
+		return strings.Join(parts, ",")
+	}
+	type item struct {
+		f      c13Fact         // a fact of g about the parameter (cut: its edge), or
+		call   ssa.Instruction // a returned-only call that establishes it (cut: the call)
+		bys    []c13SumBy
+		strict bool
+	}
+	for pi, par := range g.Params {
+		isLen := c13HasLen(par.Type())
+		if !c13IsInt(par.Type()) && !isLen {
+			continue
+		}
+		for _, wantUb := range []bool{true, false} {
+			var items []item
+			for _, f := range facts[par] {
+				if (wantUb && !f.ub) || (!wantUb && !f.lb) || f.lenOf != isLen {
+					continue
+				}
+				var bs []c13SumBy
+				for _, by := range f.bys() {
+					bs = append(bs, sumBy(by, f))
+				}
+				items = append(items, item{f: f, bys: bs, strict: f.strict})
+			}
+			for _, rc := range retCalls {
+				for _, sf := range rc.sfs {
+					if sf.param < 0 || sf.lenOf != isLen || (wantUb && !sf.ub) || (!wantUb && !sf.lb) || sf.param >= len(rc.call.Call.Args) || e.paramIndex(g, rc.call.Call.Args[sf.param]) != pi {
+						continue
+					}
+					var bs []c13SumBy
+					okBys := true
+					for _, b := range sf.bys {
+						if b.param >= 0 {
+							if b.param >= len(rc.call.Call.Args) {
+								okBys = false
+								break
+							}
+							bs = append(bs, sumBy(c13By{v: rc.call.Call.Args[b.param]}, c13Fact{}))
+							if bs[len(bs)-1].at == nil && bs[len(bs)-1].param < 0 {
+								bs[len(bs)-1].at = rc.call
+							}
+						} else {
+							bs = append(bs, b)
+						}
+					}
+					if okBys {
+						items = append(items, item{call: rc.call, bys: bs, strict: sf.strict})
+					}
+				}
+			}
+			holds := func(sel func(item) bool, key string) bool {
+				cuts := newC13Cuts()
+				for _, it := range items {
+					if !sel(it) {
+						continue
+					}
+					if it.call != nil {
+						cuts.instrs[it.call] = true
+					} else {
+						cuts.addFact(it.f)
+					}
+				}
+				for ti, t := range tgs {
+					if direct[ti] != nil {
+						sat := false
+						for _, f := range direct[ti][par] {
+							if (wantUb && !f.ub) || (!wantUb && !f.lb) || f.lenOf != isLen {
+								continue
+							}
+							var bs []c13SumBy
+							for _, by := range f.bys() {
+								bs = append(bs, sumBy(by, f))
+							}
+							if sel(item{f: f, bys: bs, strict: f.strict}) {
+								sat = true
+							}
+						}
+						if sat {
+							continue
+						}
+					}
+					tp := pointOf(t.ret)
+					if e.reach(entryPoint(g), c13Tgt{b: tp.Block, idx: tp.Idx, pred: t.pred}, cuts) {
+						return false
+					}
+				}
+				return true
+			}
+			// one bound at a time first, then all comparisons of the parameter together
+			keys := map[string]bool{}
+			var order []string
+			all := items
+			for ti := range tgs {
+				if direct[ti] == nil {
+					continue
+				}
+				for _, f := range direct[ti][par] {
+					if (wantUb && !f.ub) || (!wantUb && !f.lb) || f.lenOf != isLen {
+						continue
+					}
+					var bs []c13SumBy
+					for _, by := range f.bys() {
+						bs = append(bs, sumBy(by, f))
+					}
+					all = append(all, item{f: f, bys: bs, strict: f.strict})
+				}
+			}
+			for _, it := range all {
+				kk := fmt.Sprintf("%v|%s", it.strict, byKey(it.bys))
+				if !keys[kk] {
+					keys[kk] = true
+					order = append(order, kk)
+				}
+			}
+			found := false
+			for _, kk := range order {
+				kk := kk
+				var rep *item
+				for i := range all {
+					if fmt.Sprintf("%v|%s", all[i].strict, byKey(all[i].bys)) == kk {
+						rep = &all[i]
+						break
+					}
+				}
+				if holds(func(it item) bool { return fmt.Sprintf("%v|%s", it.strict, byKey(it.bys)) == kk }, kk) {
+					found = true
+					out = append(out, c13SumFact{param: pi, lenOf: isLen, ub: wantUb, lb: !wantUb, strict: rep.strict, bys: rep.bys})
+				}
+			}
+			if !found && len(order) > 1 && holds(func(item) bool { return true }, "*") {
+				sf := c13SumFact{param: pi, lenOf: isLen, ub: wantUb, lb: !wantUb, strict: true}
+				seenBy := map[string]bool{}
+				for _, it := range all {
+					if !it.strict {
+						sf.strict = false
+					}
+					if len(it.bys) == 0 {
+						continue
+					}
+					for _, b := range it.bys {
+						bk := byKey([]c13SumBy{b})
+						if !seenBy[bk] {
+							seenBy[bk] = true
+							sf.bys = append(sf.bys, b)
+						}
+					}
+				}
+				out = append(out, sf)
+			}
+		}
+	}
+	// what a nil-error return says about the integer results: "n, err := checkedLen(x)" - the result
+	// was compared inside the helper on the way to every success return
+	if mode == c13OnNilErr {
+		for ri := 0; ri < res.Len(); ri++ {
+			if !c13IsInt(res.At(ri).Type()) {
+				continue
+			}
+			type rf struct {
+				ub, lb, strict bool
+				bys            []c13SumBy
+			}
+			var common []rf
+			for ti, t := range tgs {
+				if ri >= len(t.ret.Results) {
+					common = nil
+					break
+				}
+				rv := t.ret.Results[ri]
+				if phi, ok := rv.(*ssa.Phi); ok && t.pred != nil && phi.Block() == t.ret.Block() {
+					for i, p := range phi.Block().Preds {
+						if p == t.pred {
+							rv = phi.Edges[i]
+						}
+					}
+				}
+				var here []rf
+				for _, f := range facts[rv] {
+					var pe *Edge
+					if t.pred != nil {
+						pe = &Edge{t.pred, c13SuccIndex(t.pred, t.ret.Block())}
+					}
+					var at ssa.Instruction = t.ret
+					if pe != nil {
+						at = nil
+					}
+					if !e.factDominates(f, at, pe) {
+						continue
+					}
+					var bs []c13SumBy
+					for _, by := range f.bys() {
+						bs = append(bs, sumBy(by, f))
+					}
+					if f.ub {
+						here = append(here, rf{ub: true, strict: f.strict, bys: bs})
+					}
+					if f.lb {
+						here = append(here, rf{lb: true, strict: f.strict, bys: bs})
+					}
+				}
+				if ti == 0 {
+					common = here
+					continue
+				}
+				var keep []rf
+				for _, c := range common {
+					for _, h := range here {
+						if c.ub == h.ub && c.lb == h.lb && c.strict == h.strict && byKey(c.bys) == byKey(h.bys) {
+							keep = append(keep, c)
+							break
+						}
+					}
+				}
+				common = keep
+			}
+			for _, c := range common {
+				out = append(out, c13SumFact{param: -1, result: ri, ub: c.ub, lb: c.lb, strict: c.strict, bys: c.bys})
+			}
+		}
+	}
+	return out
+}
+
+// deepOrigins: the leaf origins of v, looking through the results of module callees (the value a
+// helper returns): for a call result, the origins of the matching operand of every return of the callee.
+func (e *c13Engine) deepOrigins(fn *ssa.Function, v ssa.Value, depth int) []ssa.Value {
+	var out []ssa.Value
+	for _, o := range origins(fn, v) {
+		call, idx := originCall(o)
+		var g *ssa.Function
+		if call != nil {
+			g = calleeFn(call)
+		}
+		if g == nil || g.Blocks == nil || !e.inLib[g] || depth >= 3 {
+			out = append(out, o)
+			continue
+		}
+		n := 0
+		for _, b := range g.Blocks {
+			if len(b.Instrs) == 0 {
+				continue
+			}
+			if ret, ok := b.Instrs[len(b.Instrs)-1].(*ssa.Return); ok && idx < len(ret.Results) {
+				n++
+				out = append(out, e.deepOrigins(g, ret.Results[idx], depth+1)...)
+			}
+		}
+		if n == 0 {
+			out = append(out, o)
+		}
+	}
+	return out
+}
+
+// applySummary registers the summary facts of the callee of call on top of base, parameters mapped
+// to the call's arguments.
+func (e *c13Engine) applySummary(call *ssa.Call, sfs []c13SumFact, base c13Fact, reg func(ssa.Value, c13Fact)) {
+	args := call.Call.Args
+	for _, sf := range sfs {
+		var subject ssa.Value
+		if sf.param < 0 {
+			subject = extractN(call, sf.result)
+			if subject == nil {
+				continue
+			}
+		} else {
+			if sf.param >= len(args) || !(c13IsInt(args[sf.param].Type()) || (sf.lenOf && c13HasLen(args[sf.param].Type()))) {
+				continue
+			}
+			subject = args[sf.param]
+		}
+		f := base
+		f.lenOf = sf.lenOf
+		f.ub, f.lb, f.strict = sf.ub, sf.lb, sf.strict
+		f.by, f.byAt, f.also = nil, nil, nil
+		ok := true
+		var bys []c13By
+		for _, b := range sf.bys {
+			if b.param >= 0 {
+				if b.param >= len(args) {
+					ok = false
+					break
+				}
+				bys = append(bys, c13By{v: args[b.param]})
+			} else if b.v != nil {
+				bys = append(bys, c13By{v: b.v, at: b.at})
+			}
+		}
+		if !ok {
+			continue
+		}
+		if len(bys) > 0 {
+			f.by, f.byAt, f.also = bys[0].v, bys[0].at, bys[1:]
+		}
+		reg(subject, f)
+	}
 }
 
 // ubOnSuccess: every (possibly) success return of g is reached only through an edge on which
@@ -1138,6 +2047,8 @@ func (e *c13Engine) unop(x *ssa.UnOp) {
 		t := e.use(x.X, x)
 		if t.peer() {
 			e.set(x, c13T{hi: t.lo, lo: true, why: t.why})
+		} else if t.was {
+			e.set(x, c13T{was: true, why: t.why})
 		}
 	case token.XOR:
 		if !c13IsNum(x.Type()) {
@@ -1146,21 +2057,26 @@ func (e *c13Engine) unop(x *ssa.UnOp) {
 		t := e.use(x.X, x)
 		if t.peer() {
 			e.set(x, c13T{hi: true, lo: !c13Unsigned(x.Type()), why: t.why})
+		} else if t.was {
+			e.set(x, c13T{was: true, why: t.why})
 		}
 	}
 }
 
 func (e *c13Engine) binop(x *ssa.BinOp) c13T {
 	a, b := e.use(x.X, x), e.use(x.Y, x)
-	if !a.peer() && !b.peer() {
-		return c13T{}
-	}
 	why := a.why
 	if why == "" {
 		why = b.why
 	}
+	if !a.peer() && !b.peer() {
+		if a.was || b.was {
+			return c13T{was: true, why: why}
+		}
+		return c13T{}
+	}
 	signed := !c13Unsigned(x.Type())
-	r := c13T{why: why}
+	r := c13T{why: why, was: a.was || b.was}
 	cx, xIsC := c13ConstU(x.X)
 	cy, yIsC := c13ConstU(x.Y)
 	switch x.Op {
@@ -1228,7 +2144,7 @@ func (e *c13Engine) binop(x *ssa.BinOp) c13T {
 			r.hi = true
 		}
 		if !r.lo && r.ub == 0 && !r.hi {
-			return c13T{}
+			return c13T{was: r.was, why: why}
 		}
 	case token.AND:
 		switch {
@@ -1250,6 +2166,7 @@ func (e *c13Engine) binop(x *ssa.BinOp) c13T {
 		r.ub = c13SatAdd(a.ub, b.ub)
 	case token.AND_NOT:
 		r = a
+		r.was = a.was || b.was
 	default:
 		return c13T{}
 	}
@@ -1279,6 +2196,9 @@ func c13ConstU(v ssa.Value) (uint64, bool) {
 func (e *c13Engine) convert(x *ssa.Convert) c13T {
 	t := e.use(x.X, x)
 	if !t.peer() {
+		if t.was {
+			return c13T{was: true, why: t.why}
+		}
 		return c13T{}
 	}
 	s, d := x.X.Type(), x.Type()
@@ -1292,7 +2212,7 @@ func (e *c13Engine) convert(x *ssa.Convert) c13T {
 		return r
 	}
 	ws, wd := e.width(s), e.width(d)
-	r := c13T{why: t.why, ub: t.ub}
+	r := c13T{why: t.why, ub: t.ub, was: t.was}
 	if r.why == "" {
 		r.why = "type-bounded peer data widened at " + e.p.Pos(x.Pos())
 	}
@@ -1579,7 +2499,7 @@ func (e *c13Engine) sinks() []c13Sink {
 			s := &local[i]
 			ord[s.Kind]++
 			s.Key = fmt.Sprintf("%s#%s%d", fnName(fn), s.Kind, ord[s.Kind])
-			if s.Raw.hi || s.Raw.lo {
+			if s.Raw.hi || s.Raw.lo || s.Raw.was {
 				out = append(out, *s)
 			}
 		}
@@ -1664,6 +2584,24 @@ func (l *c13Loop) exitConds() []*ssa.If {
 // programBounded: the test in the loop header leaves the loop on an ordering comparison none of whose
 // operands is an unbounded peer value (for i < len(x), range over a slice), or when a range iterator
 // is exhausted: the trip count is the program's, whatever other exits the body has.
+// headerWas: the source of a once-peer-controlled operand of the header test (a bound that was
+// sanitised before it got here), "" when there is none. Only used to count instances.
+func (l *c13Loop) headerWas(e *c13Engine) string {
+	ifi := blockIf(l.Header)
+	if ifi == nil {
+		return ""
+	}
+	a := condAtom(ifi.Cond)
+	for _, op := range []ssa.Value{a.X, a.Y} {
+		if op != nil && c13IsNum(op.Type()) {
+			if t := e.eval(op); t.was {
+				return t.why
+			}
+		}
+	}
+	return ""
+}
+
 func (l *c13Loop) programBounded(e *c13Engine) bool {
 	ifi := blockIf(l.Header)
 	if ifi == nil || l.Blocks[l.Header.Succs[0]] == l.Blocks[l.Header.Succs[1]] {
@@ -1734,7 +2672,8 @@ func (l *c13Loop) cycleAvoiding(cuts *Cuts) []*ssa.BasicBlock {
 type c13EOM struct {
 	e      *c13Engine
 	ensure *ssa.Function
-	memo   map[*ssa.Function]int // 1 in progress, 2 yes, 3 no
+	memo   map[*ssa.Function]int            // 1 in progress, 2 yes, 3 no
+	memoB  map[string]map[*ssa.Function]int // the same per binding of func-typed parameters
 }
 
 func (q *c13EOM) baseHit(call ssa.CallInstruction) bool {
@@ -1767,17 +2706,72 @@ func (q *c13EOM) baseHit(call ssa.CallInstruction) bool {
 	return false
 }
 
-// hit: the call errs at end of input (base fact or derived callee).
+// c13EOMBind: the functions bound to func-typed parameters of the function under analysis (the closure a
+// caller hands to a helper that runs it: "interruptible(ctx, func() error { io.ReadFull(...) })").
+type c13EOMBind map[*ssa.Parameter]*ssa.Function
+
+func (b c13EOMBind) key() string {
+	if len(b) == 0 {
+		return ""
+	}
+	var parts []string
+	for p, f := range b {
+		parts = append(parts, fmt.Sprintf("%p=%p", p, f))
+	}
+	sort.Strings(parts)
+	return strings.Join(parts, ",")
+}
+
+// hit: the call errs at end of input (base fact or derived callee). A call of a func-typed parameter is
+// judged by the function the caller bound to it (context-sensitive: the read wrapper's closure reads,
+// the write wrapper's does not).
 func (q *c13EOM) hit(call ssa.CallInstruction, depth int) bool {
+	return q.hitWith(call, nil, depth)
+}
+
+func (q *c13EOM) hitWith(call ssa.CallInstruction, bind c13EOMBind, depth int) bool {
 	if q.baseHit(call) {
 		return true
+	}
+	if par, ok := call.Common().Value.(*ssa.Parameter); ok && !call.Common().IsInvoke() {
+		if f := bind[par]; f != nil {
+			return q.errsAtEOMWith(f, nil, depth+1)
+		}
+		return false
 	}
 	gs := q.e.callees(call)
 	if len(gs) == 0 {
 		return false
 	}
 	for _, g := range gs {
-		if !q.errsAtEOM(g, depth+1) {
+		// closures / functions handed to func-typed parameters of a static callee
+		var sub c13EOMBind
+		if calleeFn(call) == g {
+			for i, a := range call.Common().Args {
+				if i >= len(g.Params) {
+					break
+				}
+				if _, isFunc := g.Params[i].Type().Underlying().(*types.Signature); !isFunc {
+					continue
+				}
+				var f *ssa.Function
+				switch x := a.(type) {
+				case *ssa.MakeClosure:
+					f, _ = x.Fn.(*ssa.Function)
+				case *ssa.Function:
+					f = x
+				case *ssa.Parameter:
+					f = bind[x]
+				}
+				if f != nil {
+					if sub == nil {
+						sub = c13EOMBind{}
+					}
+					sub[g.Params[i]] = f
+				}
+			}
+		}
+		if !q.errsAtEOMWith(g, sub, depth+1) {
 			return false
 		}
 	}
@@ -1785,7 +2779,24 @@ func (q *c13EOM) hit(call ssa.CallInstruction, depth int) bool {
 }
 
 func (q *c13EOM) errsAtEOM(g *ssa.Function, depth int) bool {
-	switch q.memo[g] {
+	return q.errsAtEOMWith(g, nil, depth)
+}
+
+func (q *c13EOM) errsAtEOMWith(g *ssa.Function, bind c13EOMBind, depth int) bool {
+	var memo map[*ssa.Function]int
+	if len(bind) == 0 {
+		memo = q.memo
+	} else {
+		if q.memoB == nil {
+			q.memoB = map[string]map[*ssa.Function]int{}
+		}
+		k := bind.key()
+		if q.memoB[k] == nil {
+			q.memoB[k] = map[*ssa.Function]int{}
+		}
+		memo = q.memoB[k]
+	}
+	switch memo[g] {
 	case 1, 3:
 		return false
 	case 2:
@@ -1801,11 +2812,11 @@ func (q *c13EOM) errsAtEOM(g *ssa.Function, depth int) bool {
 		}
 	}
 	if !hasErr {
-		q.memo[g] = 3
+		memo[g] = 3
 		return false
 	}
-	q.memo[g] = 1
-	cuts := q.cutsIn(g, nil, depth)
+	memo[g] = 1
+	cuts := q.cutsInWith(g, nil, bind, depth)
 	ok := true
 	for _, t := range c13SuccessTargets(q.e.p, g) {
 		if findPath(entryPoint(g), t.Target(), cuts) != nil {
@@ -1814,9 +2825,9 @@ func (q *c13EOM) errsAtEOM(g *ssa.Function, depth int) bool {
 		}
 	}
 	if ok {
-		q.memo[g] = 2
+		memo[g] = 2
 	} else {
-		q.memo[g] = 3
+		memo[g] = 3
 	}
 	return ok
 }
@@ -1824,6 +2835,10 @@ func (q *c13EOM) errsAtEOM(g *ssa.Function, depth int) bool {
 // cutsIn: nil-error edges (or the call itself when its error is only returned) of the calls in fn
 // (restricted to blocks, when given) that err at end of input.
 func (q *c13EOM) cutsIn(fn *ssa.Function, blocks map[*ssa.BasicBlock]bool, depth int) *Cuts {
+	return q.cutsInWith(fn, blocks, nil, depth)
+}
+
+func (q *c13EOM) cutsInWith(fn *ssa.Function, blocks map[*ssa.BasicBlock]bool, bind c13EOMBind, depth int) *Cuts {
 	cuts := newCuts()
 	for _, b := range fn.Blocks {
 		if blocks != nil && !blocks[b] {
@@ -1831,7 +2846,7 @@ func (q *c13EOM) cutsIn(fn *ssa.Function, blocks map[*ssa.BasicBlock]bool, depth
 		}
 		for _, in := range b.Instrs {
 			call, ok := in.(*ssa.Call)
-			if !ok || !q.hit(call, depth) {
+			if !ok || !q.hitWith(call, bind, depth) {
 				continue
 			}
 			if succ, _, checked := callErrEdges(fn, call); checked {
